@@ -100,6 +100,8 @@ def gen_cases(tier, seed):
     nl = 16 if tier == "quick" else 160
     for i in range(nl):
         cases.append({"id": "list-%03d" % i, "kind": "list", "seed": seed, "idx": 5000 + i, "_threads": 1})
+    for ic in range(ncls):
+        cases.append({"id": "dup-%02d" % ic, "kind": "dup", "cls": ic, "seed": seed, "idx": 6000 + ic, "_threads": 1})
     nn = 32 if tier == "quick" else 320
     for i in range(nn):
         cases.append({"id": "norm-%03d" % i, "kind": "norm", "seed": seed, "idx": 7000 + i,
@@ -113,6 +115,8 @@ def run_case(case, rec):
         _run_map(case, rec, rng)
     elif case["kind"] == "list":
         _run_list(case, rec, rng)
+    elif case["kind"] == "dup":
+        _run_dup(case, rec, rng)
     else:
         _run_norm(case, rec, rng)
 
@@ -230,6 +234,59 @@ def _run_list(case, rec, rng):
                   detail={"classes": names})
         rec.nontrivial(str(sorted(zip(names, map(str, kws)))))
     rec.set_sample({"classes": names, "kws": kws, "list_fd_err": worst})
+
+
+def _run_dup(case, rec, rng):
+    """Several instances of the SAME class reading the SAME raw features (different parameters), alone and mixed with
+    other maps: FeatureList.fill_derivs_ must add up the single-map contributions."""
+    from ciderpress.dft.transform_data import FeatureList
+    classes = _classes()
+    cls = classes[case["cls"]]
+    name = cls.__name__
+    rec.tag("class", name)
+    nraw, npts = 6, 30
+    for rep in range(4 if case.get("tier") != "thorough" else 12):
+        m0, kw0 = _make(cls, rng, nraw)
+        idxkw = {k: v for k, v in kw0.items() if k in INDEX_NAMES}
+        maps = [m0]
+        for _ in range(int(rng.integers(1, 3))):
+            m, kw = _make(cls, rng, nraw)
+            kw.update(idxkw)  # same raw indices, other parameters
+            maps.append(cls(**kw))
+        for _ in range(int(rng.integers(0, 3))):
+            maps.append(_make(classes[int(rng.integers(len(classes)))], rng, nraw)[0])
+        order = rng.permutation(len(maps))
+        maps = [maps[int(i)] for i in order]
+        x = _inputs(cls, kw0, rng, nraw, npts)
+        x = np.abs(x)  # the extra maps of other classes need admissible (positive) raw features
+        if any(type(m).__name__ == "V2Map" for m in maps):
+            continue
+        fl = FeatureList(maps)
+        w = rng.normal(size=(len(maps), npts))
+        pre = rng.normal(size=(nraw, npts))
+        d = pre.copy()
+        fl.fill_derivs_(d, w, x)
+        tot = d - pre
+        ssum = np.zeros_like(tot)
+        for i, m in enumerate(maps):
+            tmp = np.zeros_like(tot)
+            m.fill_deriv_(tmp, w[i], x)
+            ssum += tmp
+        sc = max(1e-300, float(np.max(np.abs(ssum))))
+        rec.check("dup_additive[%s]" % name, float(np.max(np.abs(tot - ssum))) / sc, TOL_EXACT,
+                  mechanism="FeatureList.fill_derivs_:shared-raw-feature[%s]" % name)
+        t1 = np.zeros((len(maps), npts))
+        fl.fill_vals_(t1, x)
+        ok = all(np.array_equal(t1[i], _val(m, x, npts)) for i, m in enumerate(maps))
+        rec.require("dup_values", ok, mechanism="FeatureList.fill_vals_:shared-raw-feature[%s]" % name)
+        rec.nontrivial("%s|%d" % (name, rep))
+    rec.set_sample({"class": name, "kind": "duplicate maps on shared raw features"})
+
+
+def _val(m, x, npts):
+    y = np.zeros(npts)
+    m.fill_feat_(y, x)
+    return y
 
 
 def _rand_normalizers(rng, nfeat):
